@@ -276,6 +276,64 @@ def special_checks(ctx):
         ctx.violation(f"IPReservoir fit/run: {r}", c, obligation="special/ipreservoir")
 
 
+def delay_initial_values_checks(ctx, g):
+    """a Delay built with user-supplied initial values (array of shape (delay, dim) or list of rows): T rows of the declared
+    size from the first step on, the state a single-row 2-D array, a wrong feature count rejected with nothing modified"""
+    import reservoirpy.nodes as N
+    ob = "delay_initial_values"
+    delay, dim = g.randint(1, 3), g.randint(1, 3)
+    iv = [g.dyvec(dim, a=2, k=6) for _ in range(delay)]
+    form = g.choice(["array", "rows", "row_arrays"])
+    c = {"kind": "delay_iv", "delay": delay, "dim": dim, "form": form, "iv": iv, "n": ctx.evaluations}
+    arg = np.array(iv, dtype=float) if form == "array" else ([list(r) for r in iv] if form == "rows" else [np.array(r, dtype=float) for r in iv])
+    ctx.count(c, nontrivial=True, obligation=ob)
+    ctx.stat(f"delay_iv form={form} delay={delay} dim={dim}")
+    r = common.exc_class(lambda: N.Delay(delay=delay, initial_values=arg))
+    if r[0] != "ok":
+        ctx.violation(f"Delay(delay={delay}, initial_values of shape {(delay, dim)} as {form}) raised {r[1]}", c, obligation=ob)
+        return
+    node = r[1]
+    steps = g.choice(["calls", "short_run", "run"])
+    T = {"calls": delay + 1, "short_run": max(1, delay - 1), "run": delay + 2}[steps]
+    X = np.array([g.dyvec(dim, a=2, k=6) for _ in range(T)], dtype=float)
+    want = np.array(([iv[delay - 1 - t] for t in range(min(delay, T))] + X[:max(0, T - delay)].tolist()), dtype=float)
+    if steps == "calls":
+        outs = []
+        for t in range(T):
+            q_ = common.exc_class(lambda: node.call(X[t:t + 1]))
+            if q_[0] != "ok":
+                ctx.violation(f"Delay with initial values: call {t} raised {q_[1]}", c, obligation=ob)
+                return
+            o_ = np.asarray(q_[1])
+            if o_.shape != (1, dim):
+                ctx.violation(f"Delay with initial values ({form}): call {t} returned shape {o_.shape}, expected {(1, dim)}", c, obligation=ob)
+                return
+            if np.shape(node.state()) != (1, dim):
+                ctx.violation(f"Delay with initial values ({form}): state() has shape {np.shape(node.state())} after call {t}, expected {(1, dim)}", c, obligation=ob)
+                return
+            outs.append(o_[0])
+        out = np.array(outs)
+    else:
+        q_ = common.exc_class(lambda: node.run(X))
+        if q_[0] != "ok":
+            ctx.violation(f"Delay with initial values: run of {T} steps raised {q_[1]}", c, obligation=ob)
+            return
+        out = np.asarray(q_[1])
+        if out.shape != (T, dim):
+            ctx.violation(f"Delay with initial values ({form}): run on {T} timesteps returned shape {out.shape}, expected {(T, dim)}", c, obligation=ob)
+            return
+        if np.shape(node.state()) != (1, dim):
+            ctx.violation(f"Delay with initial values ({form}): state() has shape {np.shape(node.state())} after a run of {T} steps (delay {delay}), expected {(1, dim)}", c, obligation=ob)
+            return
+    if not np.array_equal(out, want):
+        ctx.violation(f"Delay with initial values ({form}): outputs {out.tolist()} differ from the initial values (last one first) followed by the delayed input {want.tolist()}", c, obligation=ob)
+        return
+    before = digest(node)
+    q_ = common.exc_class(lambda: node.call(np.ones((1, dim + 1))))
+    if q_[0] == "ok" or digest(node) != before:
+        ctx.violation(f"Delay with initial values: an input of {dim + 1} features was {'accepted' if q_[0] == 'ok' else 'rejected only after the node was modified'} (declared size {dim})", c, obligation=ob)
+
+
 def fit_container_checks(ctx, g):
     """wrong feature counts in every container (2-D array, list of arrays, 3-D array) are rejected by
     fit on an initialised readout before anything - parameters or training buffers - is touched"""
@@ -376,6 +434,40 @@ def container_state_checks(ctx, g):
                     ctx.violation(f"a model initialised on {d} features rejected ({r[1]}) run() on data with another feature count ({wrong}, {cname} container) "
                                   "only after a node's state or buffer had been modified", c, obligation=ob)
                     return
+    # (b') targets handed to a MODEL for a readout whose dimensions are fixed (online learners from their first training,
+    # an offline readout after its first fit): wrong feature count or type, with and without teacher forcing, as array or
+    # name-keyed mapping - rejected before the reservoir has moved or anything was initialised
+    o2 = g.randint(2, 3)
+    for rk in ("RLS", "LMS", "FORCE", "Ridge"):
+        for fresh in (False, True):
+            a = N.Reservoir(4, seed=5)
+            b = getattr(N, rk)(ridge=0.5) if rk == "Ridge" else getattr(N, rk)()
+            m = a >> b
+            nodes = [a, b]
+            if not fresh:
+                (m.fit if rk == "Ridge" else m.train)(arr(T + 2, d), arr(T + 2, o2))
+            wrongs = {"fewer": arr(T, o2 - 1), "more": arr(T, o2 + 1), "string": np.array([["a"] * o2] * T)}
+            if fresh:
+                wrongs = {"string": wrongs["string"]}       # (no dimension to disagree with yet)
+            for wname, Yw in wrongs.items():
+                for ft in (True, False):
+                    for as_map in (False, True):
+                        c = {"kind": "containers", "what": "model targets", "readout": rk, "fresh": fresh, "wrong": wname,
+                             "force_teachers": ft, "mapping": as_map, "d": d, "o": o2}
+                        Yarg = {b.name: Yw} if as_map else Yw
+                        before = [digest(n) for n in nodes]
+                        fn = (lambda: m.fit(arr(T, d), Yarg, force_teachers=ft)) if rk == "Ridge" else (lambda: m.train(arr(T, d), Yarg, force_teachers=ft))
+                        r = common.exc_class(fn)
+                        ctx.count(c, nontrivial=True, obligation=ob)
+                        ctx.stat(f"containers model targets {rk} fresh={fresh} {wname} ft={ft}")
+                        what = (f"{'a fresh' if fresh else 'an initialised'} model reservoir >> {rk} ({'no dimension yet' if fresh else str(o2) + ' outputs'}), "
+                                f"{'fit' if rk == 'Ridge' else 'train'}(force_teachers={ft}) with a {wname} target given as {'a mapping' if as_map else 'an array'}")
+                        if r[0] == "ok":
+                            ctx.violation(what + ": accepted", c, obligation=ob)
+                            return
+                        if [digest(n) for n in nodes] != before:
+                            ctx.violation(what + f": rejected ({r[1]}) only after a node had been initialised or its state, parameters or buffers modified", c, obligation=ob)
+                            return
     # (c) forms of a state
     for units in (1, g.randint(2, 5)):
         res = N.Reservoir(units, seed=4)
@@ -536,6 +628,8 @@ def run(ctx):
         container_state_checks(ctx, g)
     for _ in range(ctx.n(4, 40)):
         teacher_node_checks(ctx, g)
+    for _ in range(ctx.n(12, 100)):
+        delay_initial_values_checks(ctx, g)
     names = sorted(specs())
     for _ in range(ctx.n(12, 150)):
         for cls in names:
